@@ -299,6 +299,31 @@ func Ite(c, a, b *Term) *Term {
 	return App("ite", a.sort, c, a, b)
 }
 
+// freshSyms: the symbols introduced for allocations. Each one is assumed, at
+// its allocation point, to be non-nil and not allocated before, so two
+// different ones never denote the same object on a path where both exist.
+var freshSyms = map[int]bool{}
+
+func MarkFresh(t *Term) { freshSyms[t.id] = true }
+
+// knownDistinct: a and b are different by construction.
+func knownDistinct(a, b *Term) bool {
+	if a == b {
+		return false
+	}
+	if a.lit && b.lit {
+		return a.val.Cmp(b.val) != 0
+	}
+	fa, fb := freshSyms[a.id], freshSyms[b.id]
+	if fa && fb {
+		return true
+	}
+	if fa && b.lit && b.val.Sign() == 0 || fb && a.lit && a.val.Sign() == 0 {
+		return true
+	}
+	return false
+}
+
 func Eq(a, b *Term) *Term {
 	if a == b {
 		return True
@@ -308,6 +333,9 @@ func Eq(a, b *Term) *Term {
 	}
 	if a.lit && b.lit {
 		return Bool(a.val.Cmp(b.val) == 0)
+	}
+	if knownDistinct(a, b) {
+		return False
 	}
 	if a.sort == SBool {
 		if a == True {
@@ -591,7 +619,7 @@ func Select(a, i *Term) *Term {
 			if j == i {
 				return cur.args[2]
 			}
-			if j.lit && i.lit {
+			if knownDistinct(i, j) {
 				cur = cur.args[0]
 				continue
 			}
